@@ -8,6 +8,7 @@ only after the tail of the source was emitted; the HTML renderer pushes a raw so
 when it needs no escaping, never pushes a carriage return, escapes < > & " ' and ends with a
 newline.  Does not decide ordering across layers or injection containment.
 """
+import re as _re
 from common import *  # noqa: F401,F403
 import rsrules
 from rsrules import calls_named, find_fn, cond_text, text_gate, inline_text, cond_def
@@ -431,6 +432,23 @@ def rule_l1(ctx, F):
             okc = True
             text_gate(ctx, "L1", f, somes, [("a definition matches only by name", [((".name", "::eq("), True)]),
                                             ("…and only if its value ended at or before the reference", [((">= (*", ").value_range.end)"), True)])], accept_desc="accepting a definition")
+    if not okc:
+        # the same filter written as a predicate (`.filter(|def| name-test && position-test)`): every answer other than a
+        # literal `false` is given under the name test, and is the position test itself or given under it
+        for f in cl:
+            if str(f.ret or "") != "bool":
+                continue
+            ans = [(pt, x) for pt, e in f.points() for x in own_walk(e) if x.get("k") == "assign" and show(x["l"]) == "_0"
+                   and not (strip(x["r"]).get("k") == "int" and not strip(x["r"]).get("v"))]
+            if not ans:
+                continue
+            okc = True
+            text_gate(ctx, "L1", f, [pt for pt, x in ans], [("a definition matches only by name", [((".name", "::eq("), True)])], accept_desc="accepting a definition")
+            rest = [pt for pt, x in ans if not _re.search(r">= \(*\(\*+\w+\)\.value_range\)*\.end", rsrules.deep_text(f, x["r"], user=True))]
+            if rest:
+                text_gate(ctx, "L1", f, rest, [("…and only if its value ended at or before the reference", [((">= (*", ").value_range.end)"), True)])], accept_desc="accepting a definition")
+            else:
+                ctx.ok("L1", "next:…and only if its value ended at or before the reference", "the predicate's answer under the name test is the position test itself")
     if not okc:
         ctx.bad("L1", "next:definition-filter", "the closure that filters local definitions (name and value_range.end) was not found")
     # "no definition here" and "a definition that has no highlight" are different answers: the innermost definition of the
